@@ -49,6 +49,13 @@ def m_tasks(msgs, tier):
                     if nstr == 1 or k <= 2:
                         variants.append((1, 0, k))
                         variants.append((0, 9, k))
+        if nstr >= 2:
+            # one over-long string at a time, the others short (a spill into the next field would show)
+            for si in range(min(nstr, 2 if tier == 'quick' else 6)):
+                if strs[si].strlen <= 64:
+                    variants.append((1, 0, 1000 + si))
+                    if tier != 'quick':
+                        variants.append((0, 9, 1000 + si))
         for v in variants:
             ts.append(Task('verifHarness_M_' + m.go, list(v), pkg=m.pkgdir, group=m.pkgdir))
     return ts
